@@ -96,3 +96,4 @@ import Bmc.Proofs.EndToEnd.DatagramC06
 #print axioms Bmc.Proofs.EndToEnd.generated_powerreading_enhanced_request
 #print axioms Bmc.Proofs.EndToEnd.generated_powerreading_normal_request
 #print axioms Bmc.Proofs.EndToEnd.generated_sessionless_datagram_parses
+#print axioms Bmc.Proofs.EndToEnd.generated_payload_datagram_parses
